@@ -459,7 +459,13 @@ func (p *Parsed) renameLocals(r *rand.Rand, gi int) int {
 			return
 		}
 		if _, have := objs[o]; !have && r.Intn(5) != 0 {
-			objs[o] = fmt.Sprintf("%s_zr%d", id.Name, renameSeq.Add(1))
+			// half of the new names also get a prefix, so that the alphabetical order of two
+			// renamed identifiers need not be the order of the old ones
+			pre := []string{"", "", "z", "aa"}[r.Intn(4)]
+			if len(id.Name) > 1 && (id.Name[0] == 'i' || id.Name[0] == 'j') && id.Name[1] >= '0' && id.Name[1] <= '9' {
+				pre = "" // generated loop variables keep their recognisable form
+			}
+			objs[o] = fmt.Sprintf("%s%s_zr%d", pre, id.Name, renameSeq.Add(1))
 		}
 	})
 	n := 0
